@@ -683,7 +683,8 @@ def run(tier):
                   'kcolor k<=%d; domset d<=3 (both encodings); clique k<=4 (incl. k>|V|); ramlb k,s<=%d incl. k!=s' % (3 if tier == 'quick' else 4, 3 if tier == 'quick' else 4),
                   'iso: all pairs of graphs on <=3 vertices incl. order mismatch + a sample of G(4)^2 (quick) / all pairs on <=4 with |E| differing by <=1 (thorough)',
                   'subgraph: G on <=4 vertices, H on <=%d, induced x symbreak' % (3 if tier == 'quick' else 4)]
-    run.outside = ['graphs with more vertices', 'networkx graph inputs (conversion is C16)',
+    run.bounds += ["every fifth graph point is repeated with the graph given as a networkx object (reversed node/edge order, int and str 'bipartite' attributes), as a graph grown by update_vertex_number (by 2, by 3, from empty) and as a graph object with a past (refused insertions, refused bulk insertion, earlier use with one edge elsewhere)", 'size-threshold points of vlib/bigpoints.py (parameters around 10/11, 16/17, 32/33; satisfiable instances; equivalence only, 15 s solver budget, undecided ones counted as big_inconclusive)', 'one third of the points is built a second time, one third again after three calls with other arguments: all builds must agree']
+    run.outside = ['graphs with more vertices (except the threshold points)',
                    'ramlb variable-level meaning for k != s (only satisfiability is decided there)']
     run.assumptions = ['variable meaning is taken from the names reported by all_variable_labels()', 'z3 is sound']
     for h in HARNESSES:
